@@ -132,6 +132,8 @@ class ModelFn:
         fam, num, v = self.family, self.num, self.version
         if fam in ("const", "linear", "inter", "hash"):
             return {"output": self.raw(x)}
+        if fam == "riverint":
+            return {"output": float(self.predict_int(x))}
         key = tuple(canon(x[n]) for n in self.used)
         if fam == "zerosum":
             a = rat(H(self.seed, "z", v, key), num, 1, 9, 3)
@@ -145,6 +147,11 @@ class ModelFn:
             return out
         raise ValueError(fam)
 
+    def predict_int(self, x):
+        """For the riverint family: the integer class a river classifier's predict_one would return."""
+        key = tuple(canon(x[n]) for n in self.used)
+        return H(self.seed, "ri", self.version, key) % 2
+
     def predict_label(self, x):
         """For the riverlabel family: the string label a river classifier's predict_one would return."""
         labs = self.labels()
@@ -157,6 +164,7 @@ class LossFn:
 
     def __init__(self, lcfg, num, multi):
         self.family = lcfg["family"]
+        self.metric = lcfg.get("metric")
         self.seed = lcfg.get("seed", 0)
         self.num = num
         self.multi = multi
@@ -168,6 +176,16 @@ class LossFn:
 
     def __call__(self, y, pred):
         fam, num = self.family, self.num
+        if fam == "river":
+            # closed form of what a fresh river metric reports after the single pair, smaller-is-better
+            p = pred.get("output", 0)
+            if self.metric == "MSE":
+                return (y - p) * (y - p)
+            if self.metric == "MAE":
+                return abs(y - p)
+            if self.metric == "Accuracy":
+                return -1.0 if y == p else -0.0
+            raise ValueError(self.metric)
         if fam == "hash":
             # a label with value 0 is the same prediction as a missing label (the library's own convention)
             items = tuple(sorted((repr(k), canon(v)) for k, v in pred.items() if v != 0))
@@ -216,6 +234,16 @@ class World:
         self.multi = multi
         self.model_fn = ModelFn(cfg["model"], self.names, self.num)
         self.loss_fn = LossFn(cfg.get("loss", {"family": "sq"}), self.num, multi)
+        self.loss_fn_raw = self.loss_fn
+        if cfg.get("loss", {}).get("family") == "river":
+            raw = self.loss_fn
+
+            def noted(y, p, _raw=raw):
+                v = _raw(y, p)
+                self.note_loss(v)
+                return v
+            noted.family = raw.family
+            self.loss_fn = noted
         self.model = make_rec_model(self, cfg["model"])
         self.loss = make_rec_loss(self, cfg.get("loss", {"family": "sq"}))
         self.storages = [make_storage(self, i, s) for i, s in enumerate(cfg.get("storages", []))]
@@ -235,6 +263,8 @@ class World:
             else:
                 v = H(self.seed, "x", tag, j) % 3
             x[n] = v
+        if self.cfg["model"]["family"] == "riverint":
+            return x, H(self.seed, "y", tag) % 2
         if self.multi:
             labs = ["L%d" % i for i in range(self.cfg["model"].get("labels", 3))]
             if self.cfg["model"]["family"] == "zerosum":
@@ -305,7 +335,7 @@ def make_rec_model(world, mcfg):
     fn = world.model_fn
     style = mcfg.get("style", "wrapper")
 
-    if mcfg["family"] == "riverlabel":
+    if mcfg["family"] in ("riverlabel", "riverint"):
         class RecRiver(RiverWrapper):
             """Real RiverWrapper around a stub classifier's predict_one; logs what the explainer sees."""
 
@@ -319,7 +349,7 @@ def make_rec_model(world, mcfg):
                 outs = RiverWrapper.__call__(self, x)
                 world.events.append(("MB", [snap(r) for r in x], [snap(o) for o in outs]))
                 return outs
-        return RecRiver(fn.predict_label)
+        return RecRiver(fn.predict_label if mcfg["family"] == "riverlabel" else fn.predict_int)
 
     def call(x):
         if isinstance(x, dict):
@@ -347,6 +377,19 @@ def make_rec_model(world, mcfg):
 def make_rec_loss(world, lcfg):
     fn = world.loss_fn
     sig = lcfg.get("sig", "pos")
+    if lcfg["family"] == "river":
+        # the REAL river metric object, shared by every explainer of the world (as in the repository's examples);
+        # the explainers wrap it themselves via validate_loss_function
+        import river.metrics as rm
+        base = getattr(rm, lcfg["metric"])
+
+        class NotingMetric(base):       # real metric; only observes the magnitudes it reports (float tolerances)
+            def get(self):
+                v = base.get(self)
+                world.note_loss(v)
+                return v
+        NotingMetric.__name__ = base.__name__
+        return NotingMetric()
 
     def core(y, p):
         world.callout("loss")
